@@ -424,10 +424,8 @@ impl TryFrom<Option<&SubtypeElements>> for PerVisibleRangeConstraints {
                 matches!(subtype, ASN1Type::Integer(_)),
                 subtype.constraints(),
             ),
-            x => {
-                eprintln!("{x:?}");
-                unreachable!()
-            }
+            // any other kind of constraint is not PER-visible and contributes no bounds
+            Some(_) => Ok(Self::default()),
         }
     }
 }
